@@ -89,6 +89,19 @@ CHECKS.update({
     ),
 })
 
+CHECKS.update({
+    "C06": dict(
+        text="for each of 21 derive(Serialize, Deserialize) types covering every documented mapping row, every value of the cartesian product of small hostile field domains, and every string <=3/4 over 14 markup/blank characters in each payload position of each type, x 3 quote levels x indent x expand-empty x root renaming: to_string succeeds and from_str and from_reader of the output equal the value; both feature builds",
+        note="the type family and the value domains are fixed; documented exclusions honoured (leading/trailing blanks in element/text strings, empty simple-list items, prefixed names); open known findings F5 (empty string in a text position without default) and F6 (blank inside a $text list item); defect F9 found by this check was repaired (fix: commit a5f8907)",
+        technique="bounded-exhaustive enumeration of values of a fixed type family x serializer configurations through the real serializer and deserializer (round-trip oracle)",
+    ),
+    "C13": dict(
+        text="every value of the C06 family, every string <=3/4 over {< > & ' \" ] - NUL newline space a} in every payload position INCLUDING out-of-domain strings, and 88 out-of-domain cases (18 hostile names as map key / root name / run-time field name / struct name, markup-named unit variants in four positions, Option without skip, nested sequences, tuples, bytes, unit, top-level primitives) x 24 serializer configurations: the call returns Err or the output is read by Reader with all checks on without error, properly nested, attribute lists iterate, every name satisfies an independent XML Name predicate, and the markup skeleton equals that of the same value with a harmless same-shape placeholder payload (no injection)",
+        note="refusing a value is allowed by this property; defect F4 found by this check was repaired (fix: commit 3081cc7)",
+        technique="bounded-exhaustive enumeration of values/payloads/names through the real serializer, judged by the real strict reader, an independent Name predicate and a skeleton-invariance (metamorphic) oracle",
+    ),
+})
+
 PENDING_REASON = "check not built yet (work in progress; see DESIGN.md §9 for the order of work)"
 
 ALL = ["C%02d" % i for i in range(1, 21)]
